@@ -332,6 +332,8 @@ func checkC20(c *core.Ctx) error {
 	checkSliceBounds(c)
 	checkRawSubslices(c)
 	checkSvdScan(c)
+	checkRetryShrinks(c)
+	checkAxisExtents(c)
 	checkOptionSwitches(c)
 	checkOptionSpreading(c)
 	checkADGuards(c)
@@ -1161,4 +1163,232 @@ func nodeStr(n ast.Node) string {
 	var b strings.Builder
 	printer.Fprint(&b, token.NewFileSet(), n)
 	return b.String()
+}
+
+// checkRetryShrinks (C20.R7): Rprop's inner retry loop (`for { try; if invalid { change step } else { break } }`) ends
+// only if the step change on the invalid branch moves towards admissible points, i.e. shrinks the step. Which of the two
+// user-supplied factors shrinks is fixed by the step-size update of the same function: the factor applied when the
+// gradient changes sign (the decrease factor). The retry branch must apply that same factor; applying the increase
+// factor makes the loop diverge.
+func checkRetryShrinks(c *core.Ctx) {
+	c.Rule("C20.R7", "the invalid-update branch of Rprop's retry loop multiplies the step by the decrease factor of the step-size update", 2)
+	p := c.Pkg("algorithm/rprop")
+	if p == nil {
+		c.Unknown("C20.R7", "algorithm/rprop", "package loaded", token.NoPos, "not loaded")
+		return
+	}
+	info := p.TypesInfo
+	_ = info
+	core.EachFunc(p, func(_ *ast.File, fd *ast.FuncDecl) {
+		// the step-size update: if <same sign> { step[i] *= INC } else { step[i] *= DEC }
+		mulFactor := func(b *ast.BlockStmt) string {
+			f := ""
+			if b == nil {
+				return f
+			}
+			for _, st := range b.List {
+				if as, ok := st.(*ast.AssignStmt); ok && as.Tok == token.MUL_ASSIGN && len(as.Lhs) == 1 {
+					if _, isIdx := as.Lhs[0].(*ast.IndexExpr); isIdx {
+						f = exprStr(as.Rhs[0])
+					}
+				}
+			}
+			return f
+		}
+		inc, dec := "", ""
+		ast.Inspect(fd.Body, func(x ast.Node) bool {
+			is, ok := x.(*ast.IfStmt)
+			if !ok || is.Else == nil {
+				return true
+			}
+			eb, ok := is.Else.(*ast.BlockStmt)
+			if !ok {
+				return true
+			}
+			a, b := mulFactor(is.Body), mulFactor(eb)
+			if a != "" && b != "" && a != b && strings.Contains(exprStr(is.Cond), "<0") && strings.Contains(exprStr(is.Cond), ">0") {
+				inc, dec = a, b
+			}
+			return true
+		})
+		if inc == "" {
+			return
+		}
+		cons := c.FuncName(p, fd)
+		// retry loops: for without condition
+		n := 0
+		ast.Inspect(fd.Body, func(x ast.Node) bool {
+			fs, ok := x.(*ast.ForStmt)
+			if !ok || fs.Cond != nil || fs.Init != nil {
+				return true
+			}
+			ast.Inspect(fs.Body, func(y ast.Node) bool {
+				is, ok := y.(*ast.IfStmt)
+				if !ok || is.Else == nil {
+					return true
+				}
+				// the branch that does not break changes the step
+				hasBreak := func(b ast.Node) bool {
+					r := false
+					ast.Inspect(b, func(z ast.Node) bool {
+						if bs, ok := z.(*ast.BranchStmt); ok && bs.Tok == token.BREAK {
+							r = true
+						}
+						return true
+					})
+					return r
+				}
+				if hasBreak(is.Body) || !hasBreak(is.Else) {
+					return true
+				}
+				f := ""
+				ast.Inspect(is.Body, func(z ast.Node) bool {
+					if as, ok := z.(*ast.AssignStmt); ok && as.Tok == token.MUL_ASSIGN && len(as.Lhs) == 1 {
+						if _, isIdx := as.Lhs[0].(*ast.IndexExpr); isIdx {
+							f = exprStr(as.Rhs[0])
+						}
+					}
+					return true
+				})
+				if f == "" {
+					return true
+				}
+				n++
+				c.Check(f == dec, "C20.R7", cons, "retry branch applies the decrease factor", is.Pos(),
+					"the invalid-update branch of the retry loop multiplies the step by "+f+" while the step-size update uses "+dec+" to decrease and "+inc+" to increase the step: the retry does not move towards admissible points and the loop need not end")
+				return true
+			})
+			return true
+		})
+		if n == 0 {
+			c.Unknown("C20.R7", cons, "retry loop found", fd.Pos(), "the function updates step sizes but no retry loop with a step change was recognised")
+		}
+	})
+}
+
+// checkAxisExtents (C20.R8): a name bound to one result of X.Dims() that is used as the bound of loops whose variables
+// index X only on the *other* axis is a transposed extent: `n, _ := m.Dims(); for j := 0; j < n; j++ { m.At(i, j) }`
+// walks the columns of row i up to the number of rows. For square matrices nothing shows; for rectangular ones entries
+// are skipped or the access runs out of range. A name that bounds loops on both axes (algorithms on square matrices)
+// is not reported.
+func checkAxisExtents(c *core.Ctx) {
+	c.Rule("C20.R8", "an extent taken from X.Dims() is not used exclusively to bound indices of X's other axis (algorithm and statistics packages)", 5)
+	n := 0
+	for _, p := range c.LibPkgs() {
+		if p.PkgPath == core.RootPkg {
+			continue
+		}
+		info := p.TypesInfo
+		pkg := p
+		core.EachFunc(p, func(_ *ast.File, fd *ast.FuncDecl) {
+			type ext struct {
+				cont types.Object
+				axis int
+			}
+			extent := map[types.Object]ext{}
+			ast.Inspect(fd.Body, func(x ast.Node) bool {
+				as, ok := x.(*ast.AssignStmt)
+				if !ok || len(as.Lhs) != 2 || len(as.Rhs) != 1 {
+					return true
+				}
+				ce, ok := ast.Unparen(as.Rhs[0]).(*ast.CallExpr)
+				if !ok || calleeName(ce) != "Dims" {
+					return true
+				}
+				sel, ok := ast.Unparen(ce.Fun).(*ast.SelectorExpr)
+				if !ok {
+					return true
+				}
+				cid, ok := ast.Unparen(sel.X).(*ast.Ident)
+				if !ok {
+					return true
+				}
+				for k, l := range as.Lhs {
+					if id, ok := l.(*ast.Ident); ok && id.Name != "_" {
+						o := info.Defs[id]
+						if o == nil {
+							o = info.Uses[id]
+						}
+						if o != nil {
+							extent[o] = ext{info.Uses[cid], k}
+						}
+					}
+				}
+				return true
+			})
+			if len(extent) == 0 {
+				return
+			}
+			// loop variables bounded by an extent name
+			boundOf := map[types.Object]types.Object{}
+			ast.Inspect(fd.Body, func(x ast.Node) bool {
+				fs, ok := x.(*ast.ForStmt)
+				if !ok {
+					return true
+				}
+				as, ok := fs.Init.(*ast.AssignStmt)
+				if !ok || len(as.Lhs) != 1 {
+					return true
+				}
+				id, ok := as.Lhs[0].(*ast.Ident)
+				if !ok {
+					return true
+				}
+				be, ok := fs.Cond.(*ast.BinaryExpr)
+				if !ok {
+					return true
+				}
+				if bid, ok := ast.Unparen(be.Y).(*ast.Ident); ok {
+					if o := info.Uses[bid]; o != nil {
+						if _, isExt := extent[o]; isExt {
+							boundOf[info.Defs[id]] = o
+						}
+					}
+				}
+				return true
+			})
+			// uses of the loop variables as indices of the same container
+			used := map[types.Object][2]int{} // extent name -> count of uses on axis 0 / axis 1
+			ast.Inspect(fd.Body, func(x ast.Node) bool {
+				ce, ok := x.(*ast.CallExpr)
+				if !ok || len(ce.Args) != 2 {
+					return true
+				}
+				nm := calleeName(ce)
+				if nm != "At" && nm != "AT" && nm != "ConstAt" && nm != "MagicAt" && nm != "Float64At" {
+					return true
+				}
+				sel, ok := ast.Unparen(ce.Fun).(*ast.SelectorExpr)
+				if !ok {
+					return true
+				}
+				cid, ok := ast.Unparen(sel.X).(*ast.Ident)
+				if !ok {
+					return true
+				}
+				for axis, a := range ce.Args {
+					// any bounded loop variable inside the index expression counts (p[j], k+1, n-i-1)
+					ast.Inspect(a, func(z ast.Node) bool {
+						if id, ok := z.(*ast.Ident); ok {
+							if e, ok := boundOf[info.Uses[id]]; ok && extent[e].cont == info.Uses[cid] {
+								u := used[e]
+								u[axis]++
+								used[e] = u
+							}
+						}
+						return true
+					})
+				}
+				return true
+			})
+			for e, u := range used {
+				ax := extent[e].axis
+				n++
+				bad := u[ax] == 0 && u[1-ax] > 0
+				c.Check(!bad, "C20.R8", c.FuncName(pkg, fd), "extent "+e.Name()+" bounds indices of its own axis", e.Pos(),
+					fmt.Sprintf("%s is result %d of Dims() but bounds only loops whose variables index axis %d of the same matrix: the loop walks one axis up to the extent of the other", e.Name(), ax, 1-ax))
+			}
+		})
+	}
+	c.Analysed["dims_extents_checked"] = n
 }
